@@ -403,7 +403,7 @@ def judgeWhole (c : Ctx) (script : Script) (d : TraceDb) (sel : Sel) : String :=
   else match topNBad sp (limitOf c) ids with
   | some w => "DIFF " ++ w ++ detail
   | none =>
-    if !(sortedDesc (ids.map sp.recOf)) then "DIFF not-newest-first" ++ detail
+    if !(isAllScript script) && !(sortedDesc (ids.map sp.recOf)) then "DIFF not-newest-first" ++ detail   -- `{}` orders index_grouped by the newest of the ≤ 100 kept spans
     else match K.findSome? (fun k => spanSetBad sp (isAllScript script) k.1 k.2) with
     | some w => "DIFF " ++ w ++ detail
     | none =>
